@@ -32,9 +32,10 @@ Theorem C16_consulted_once_and_obeyed : forall c s i h k tag, open_query s i h -
      | DNextHost => retries s1 = retries s + 1 /\ fin_res s1 = fin_res s /\ fin_exc s1 = fin_exc s /\
                  (fin_exc s = None -> queue s1 = queue s ++ [TRetry false h] /\
                                       msg_cl s1 = match dcl with Some x => Some x | None => msg_cl s end)
-     | DRethrow => fin_exc s1 = Some (XResp k tag) /\ queue s1 = queue s /\ retries s1 = retries s /\ msg_cl s1 = msg_cl s
-     | DIgnore => fin_res s1 = Some FNone /\ fin_exc s1 = fin_exc s /\ queue s1 = queue s /\ retries s1 = retries s
-                  /\ msg_cl s1 = msg_cl s
+     | DRethrow => fin_exc s1 = (if completed s then fin_exc s else Some (XResp k tag)) /\ fin_res s1 = fin_res s /\
+                   queue s1 = queue s /\ retries s1 = retries s /\ msg_cl s1 = msg_cl s
+     | DIgnore => fin_res s1 = (if completed s then fin_res s else Some FNone) /\ fin_exc s1 = fin_exc s /\
+                  queue s1 = queue s /\ retries s1 = retries s /\ msg_cl s1 = msg_cl s
      end.
 Proof. exact retryable_step. Qed.
 Print Assumptions C16_consulted_once_and_obeyed.
